@@ -2,8 +2,10 @@ package main
 
 import (
 	"go/ast"
+	"go/token"
 	"go/types"
 	"regexp"
+	"sort"
 	"strings"
 )
 
@@ -565,4 +567,148 @@ func renumber(ns []emNode) {
 		}
 	}
 	walk(ns)
+}
+
+// altFor builds the canonical branching for a condition: negations swap the
+// arms, != is == with swapped arms, a||b and a&&b become nested ALTs over
+// their operands (sorted by rendering, operands being side-effect free
+// tests), so differently phrased but equivalent conditions agree.
+func (e *emitter) altFor(cond ast.Expr, th, el []emNode) []emNode {
+	cond = ast.Unparen(cond)
+	switch x := cond.(type) {
+	case *ast.UnaryExpr:
+		if x.Op == token.NOT {
+			return e.altFor(x.X, el, th)
+		}
+	case *ast.BinaryExpr:
+		switch x.Op {
+		case token.LOR, token.LAND:
+			ops := e.operands(x, x.Op)
+			sort.SliceStable(ops, func(i, j int) bool { return e.condKey(ops[i]) < e.condKey(ops[j]) })
+			return e.chain(ops, x.Op, th, el)
+		case token.NEQ:
+			return e.altFor(&ast.BinaryExpr{X: x.X, Op: token.EQL, Y: x.Y}, el, th)
+		case token.EQL:
+			// orient: constant / nil on the right
+			if e.isConstLike(x.X) && !e.isConstLike(x.Y) {
+				return e.altFor(&ast.BinaryExpr{X: x.Y, Op: token.EQL, Y: x.X}, th, el)
+			}
+		}
+	}
+	if len(th) == 0 && len(el) == 0 {
+		return nil
+	}
+	return []emNode{&emAlt{cond: e.sym(cond), then: th, els: el}}
+}
+
+func (e *emitter) isConstLike(x ast.Expr) bool {
+	if tv, ok := e.fi.Info.Types[x]; ok && tv.Value != nil {
+		return true
+	}
+	return e.fi.isNilIdent(x)
+}
+
+func (e *emitter) condKey(x ast.Expr) string {
+	x = ast.Unparen(x)
+	for {
+		u, ok := x.(*ast.UnaryExpr)
+		if !ok || u.Op != token.NOT {
+			break
+		}
+		x = ast.Unparen(u.X)
+	}
+	if b, ok := x.(*ast.BinaryExpr); ok && b.Op == token.NEQ {
+		x = &ast.BinaryExpr{X: b.X, Op: token.EQL, Y: b.Y}
+	}
+	return e.sym(x)
+}
+
+func (e *emitter) operands(x ast.Expr, op token.Token) []ast.Expr {
+	x = ast.Unparen(x)
+	if b, ok := x.(*ast.BinaryExpr); ok && b.Op == op {
+		return append(e.operands(b.X, op), e.operands(b.Y, op)...)
+	}
+	return []ast.Expr{x}
+}
+
+func (e *emitter) chain(ops []ast.Expr, op token.Token, th, el []emNode) []emNode {
+	if len(ops) == 1 {
+		return e.altFor(ops[0], th, el)
+	}
+	if op == token.LOR {
+		// a || rest: then on a, otherwise decide on rest
+		return e.altFor(ops[0], th, e.chain(ops[1:], op, cloneNodes(th), el))
+	}
+	return e.altFor(ops[0], e.chain(ops[1:], op, th, cloneNodes(el)), el)
+}
+
+// stableCond reports whether a condition only reads values that cannot change
+// during the emitter's run (parameters, their fields and pure calls on them).
+func stableCond(c string) bool {
+	if varTok.MatchString(c) {
+		return false
+	}
+	for _, t := range []string{"paramNames", "localNames", "cleanupNames", ".values", ".imports", ".anonImports", ".buf"} {
+		if strings.Contains(c, t) {
+			return false
+		}
+	}
+	return true
+}
+
+// simplifyKnown removes tests whose outcome is already decided by an
+// enclosing test of the same (stable) condition, and orders directly nested
+// tests of two stable conditions by their rendering (a decision-diagram normal
+// form), so a switch over combined conditions and the equivalent nested ifs agree.
+func simplifyKnown(ns []emNode, known map[string]bool) []emNode {
+	var out []emNode
+	for _, n := range ns {
+		switch x := n.(type) {
+		case *emAlt:
+			if v, ok := known[x.cond]; ok && stableCond(x.cond) {
+				if v {
+					out = append(out, simplifyKnown(x.then, known)...)
+				} else {
+					out = append(out, simplifyKnown(x.els, known)...)
+				}
+				continue
+			}
+			if stableCond(x.cond) {
+				kt := copyKnown(known)
+				kt[x.cond] = true
+				ke := copyKnown(known)
+				ke[x.cond] = false
+				x.then = simplifyKnown(x.then, kt)
+				x.els = simplifyKnown(x.els, ke)
+			} else {
+				x.then = simplifyKnown(x.then, known)
+				x.els = simplifyKnown(x.els, known)
+			}
+			// reorder ALT[b]{ALT[a]{X}{Y}}{ALT[a]{Z}{W}} with a<b into ALT[a]{ALT[b]{X}{Z}}{ALT[b]{Y}{W}}
+			if len(x.then) == 1 && len(x.els) == 1 {
+				t, ok1 := x.then[0].(*emAlt)
+				e2, ok2 := x.els[0].(*emAlt)
+				if ok1 && ok2 && t.cond == e2.cond && t.cond < x.cond && stableCond(t.cond) && stableCond(x.cond) {
+					x = &emAlt{cond: t.cond,
+						then: []emNode{&emAlt{cond: x.cond, then: t.then, els: e2.then}},
+						els:  []emNode{&emAlt{cond: x.cond, then: t.els, els: e2.els}}}
+				}
+			}
+			out = append(out, x)
+		case *emLoop:
+			x.body = simplifyKnown(x.body, known)
+			out = append(out, x)
+		default:
+			out = append(out, n)
+		}
+	}
+	return out
+}
+
+func copyKnown(m map[string]bool) map[string]bool {
+	o := map[string]bool{}
+	for k, v := range m {
+		o[k] = v
+	}
+	return o
 }
